@@ -364,7 +364,17 @@ pub const CLIENT_STATES: [&str; 10] = [
 pub const CLIENT_STREAM_ID: u32 = 5;
 
 pub fn prep_client(state: usize, rng: &mut Rng) -> Result<ClientRig, String> {
+    prep_client_with(state, rng, None, None)
+}
+
+/// `announce_window`: None = the server opening announces a window in half of the prefixes;
+/// Some(false) = never (C17 starts its accounting from a session that has not learned a window).
+/// `own_window`: the client's own configured window (None: library default).
+pub fn prep_client_with(state: usize, rng: &mut Rng, announce_window: Option<bool>, own_window: Option<u32>) -> Result<ClientRig, String> {
     let mut cfg = ClientSessionConfig::new();
+    if let Some(w) = own_window {
+        cfg.window_ack_size = w;
+    }
     cfg.chunk_size = *rng.pick(&[128u32, 4096, 1, 65536]);
     let mut rig = ClientRig::new(cfg, rng.below(1 << 33))?;
     if state == 0 {
@@ -379,8 +389,11 @@ pub fn prep_client(state: usize, rng: &mut Rng) -> Result<ClientRig, String> {
         return Ok(rig);
     }
     // a typical server opening: window ack size, peer bandwidth, chunk size, then the result
-    if rng.coin() {
-        rig.send(&RMsg::WinAck(2_500_000), 0, 0)?;
+    let opening = rng.coin();
+    if opening {
+        if announce_window.unwrap_or(true) {
+            rig.send(&RMsg::WinAck(2_500_000), 0, 0)?;
+        }
         rig.send(&RMsg::SetPeerBw(2_500_000, 2), 0, 0)?;
         let st = rig.send(&RMsg::SetChunkSize(*rng.pick(&[128u32, 4096, 60000])), 0, 0)?;
         decode_packets(&mut rig.dec, &st.packets)?;
